@@ -126,6 +126,17 @@ pub fn gen(ctx: &mut Ctx) {
         ("https://co.uk", None),
         ("https://a.co.uk", Some("co.uk")),
         ("https://a.b.example.co.uk", Some("example.co.uk")),
+        // the RP ID has more labels than the host (a parent site claiming a subdomain's RP ID)
+        ("https://example.com", Some("login.example.com")),
+        ("https://example.co.uk", Some("a.b.example.co.uk")),
+        // names below "localhost" are not the literal host "localhost"
+        ("http://app.localhost:3000", None),
+        ("http://app.localhost:3000", Some("localhost")),
+        ("http://app.localhost:3000", Some("app.localhost")),
+        ("https://app.localhost", None),
+        ("http://localhost.example.com", Some("localhost.example.com")),
+        ("wss://www.example.com", Some("example.com")),
+        ("https://192.168.1.10", Some("1.10")),
     ];
     for (u, rp) in &corpus {
         let o = Org::Web(Url::parse(u).unwrap());
@@ -148,7 +159,7 @@ pub fn gen(ctx: &mut Ctx) {
         // host
         let host: String = match ctx.rng.below(10) {
             0 => rand_label(ctx),                                                    // single label
-            1 => "localhost".into(),
+            1 => if ctx.rng.below(3) == 0 { format!("{}.localhost", rand_label(ctx)) } else { "localhost".into() },
             2 => format!("{}.{}.{}.{}", ctx.rng.below(256), ctx.rng.below(256), ctx.rng.below(256), ctx.rng.below(256)),
             3 | 4 => { // a public suffix itself or with labels in front
                 let r = &rules[ctx.rng.below(rules.len() as u64) as usize];
@@ -174,7 +185,7 @@ pub fn gen(ctx: &mut Ctx) {
             2 => Some(h.clone()),
             3 | 4 => { let k = ctx.rng.below(labels.len() as u64) as usize; Some(labels[k..].join(".")) }       // label-aligned suffix
             5 => { if h.len() > 1 { let k = ctx.rng.range(1, (h.len() - 1) as u64) as usize; if h.is_char_boundary(k) { Some(h[k..].to_string()) } else { None } } else { Some(String::new()) } } // character suffix
-            6 => Some(format!("evil{}", h)),
+            6 => Some(if ctx.rng.bool() { format!("evil{}", h) } else { format!("{}.{}", rand_label(ctx), h) }),   // glued prefix / extra label in front
             7 => Some(format!("{}.{}", rand_label(ctx), rand_label(ctx))),
             8 => Some(String::new()),
             9 => Some(match ctx.rng.below(4) { 0 => ".".into(), 1 => format!(".{}", h), 2 => format!("{}.", h), _ => format!("a..{}", h) }),
